@@ -33,7 +33,9 @@ Finish(kind, fl, svc, err) ==
   /\ pending' = IF fl = "F" /\ tstate = "Process" /\ kind # "HEL" THEN 0 ELSE pending     \* a final chunk drains the pending list before anything can fail
   /\ evt' = Obs(kind, fl, svc, TRUE, <<>>, err)
 
-\* kind in {"HEL", "OPNI", "OPNR", "MSG", "CLO"}; fl in {"F", "C", "A"}; svc in {"GetEndpoints", "Read", "none"}
+\* kind in {"HEL", "OPNI", "OPNR", "MSG", "MSGS", "CLO"}; fl in {"F", "C", "A"}; svc in {"GetEndpoints", "Read", "none"}
+\* MSGS = a MSG whose chunk header carries a channel id that this connection never issued (a stale id of an earlier
+\* connection): before an OpenSecureChannel it is refused like any MSG, afterwards it fails the channel id validation.
 Frame(kind, fl, svc) ==
   IF tstate = "Finished"
   THEN /\ UNCHANGED <<tstate, issued, pending>>                      \* the socket is closed: nothing is read any more
@@ -63,6 +65,8 @@ Frame(kind, fl, svc) ==
   THEN IF issued THEN /\ pending' = 0 /\ UNCHANGED <<tstate, issued>> /\ evt' = Obs(kind, fl, svc, TRUE, <<"OPN">>, "")
        ELSE /\ tstate' = "Finished" /\ pending' = 0 /\ UNCHANGED issued /\ evt' = Obs(kind, fl, svc, TRUE, <<>>, "error")
   ELSE IF kind = "CLO"
+  THEN /\ tstate' = "Finished" /\ pending' = 0 /\ UNCHANGED issued /\ evt' = Obs(kind, fl, svc, TRUE, <<>>, "error")
+  ELSE IF kind = "MSGS" /\ issued
   THEN /\ tstate' = "Finished" /\ pending' = 0 /\ UNCHANGED issued /\ evt' = Obs(kind, fl, svc, TRUE, <<>>, "error")
   ELSE \* MSG
   IF ~issued /\ ~DevMsgBeforeOpen
